@@ -219,6 +219,43 @@ func GenC02(rng *rand.Rand, thorough bool, emit func(*Sx)) {
 			}
 		}
 	}
+	// a very large message the backend does not read (refuses at once / reads a few octets / stops at the
+	// size limit): however much is left, it is skipped up to the end marker and never run as commands
+	for mi, m := range modes {
+		for bi, big := range []int{300 << 10, 1100 << 10} {
+			if !thorough && bi == 1 && mi != 0 {
+				continue
+			}
+			for pi, stop := range []int64{0, 3} {
+				if !thorough && (mi+bi+pi)%2 != 0 {
+					continue
+				}
+				cfg := DefaultCfg()
+				cfg.LMTP, cfg.LMTPSession = m.lmtp, m.sess
+				if pi == 1 {
+					cfg.MaxBytes = 1000
+				}
+				f := newF(cfg)
+				f.hello()
+				f.cmd("MAIL FROM:<s@ok>", 250)
+				f.cmd("RCPT TO:<r0@ok>", 250)
+				f.cmd("DATA", 354)
+				p := DefaultPlan()
+				p.Stop, p.Ret = stop, rejectErr()
+				p.Sizes = []int{4096}
+				f.script.Data = []DataPlan{p}
+				line := "MAIL FROM:<bait@evil>\r\n"
+				f.raw(strings.Repeat(line, big/len(line)))
+				f.raw(".\r\n")
+				f.expect(550)
+				f.cmd("MAIL FROM:<after@ok>", 250)
+				f.cmd("QUIT", 221)
+				f.add(L(A("must-mail"), XS("after@ok")))
+				f.add(L(A("must-not-mail"), XS("bait@evil")))
+				emit(RunConv(f.caseOf("C02", segStream(rng, f.out, f.cuts, 0, rawEOF))))
+			}
+		}
+	}
 	// A read that fails inside the message (finding F30).  A read deadline that has expired stays expired
 	// until the command loop arms it again; on a scripted connection that is a failure that REPEATS: the
 	// backend's read fails, then the server's drain of the rest of the message fails.  The end of the
